@@ -137,31 +137,31 @@ contract(MM, "merge_shard_infos", props=["C04", "C05", "C06", "C08", "C09", "C16
         ] + _RSL_OK,
             end_lemmas=[
                 # the directory handled by this step, and where its result lives
-                f"PPREFIX(UP(_dc1_recursive_updates[0]), common + 1) == PJOIN({_D}, _dc1_directory)",
-                f"UP({_M}[_dc1_directory]) == PJOIN(PJOIN({_D}, _dc1_directory), 'shards_list.json')",
-                f"NPARTS({_D}) == common and NPARTS(PJOIN({_D}, _dc1_directory)) == common + 1"
-                f" and NPARTS(PJOIN(PJOIN({_D}, _dc1_directory), 'shards_list.json')) == common + 2 and NPARTS({_P0}) == common + 1",
+                f"PPREFIX(UP(_dc1_1[0]), common + 1) == PJOIN({_D}, _dc1_0)",
+                f"UP({_M}[_dc1_0]) == PJOIN(PJOIN({_D}, _dc1_0), 'shards_list.json')",
+                f"NPARTS({_D}) == common and NPARTS(PJOIN({_D}, _dc1_0)) == common + 1"
+                f" and NPARTS(PJOIN(PJOIN({_D}, _dc1_0), 'shards_list.json')) == common + 2 and NPARTS({_P0}) == common + 1",
                 # results of earlier steps live in other directories: their files and certificates are untouched
-                f"forall(lambda g: implies(g in {_M} and g != _dc1_directory, not UNDER(PJOIN({_D}, _dc1_directory), common + 1, UP({_M}[g]))"
-                f"   and not ANCREL(UP({_M}[g]), PJOIN(PJOIN({_D}, _dc1_directory), 'shards_list.json'))), g='U')",
-                f"reveal R_FS,R_CERT: forall(lambda g: implies(g in {_M} and g != _dc1_directory,"
+                f"forall(lambda g: implies(g in {_M} and g != _dc1_0, not UNDER(PJOIN({_D}, _dc1_0), common + 1, UP({_M}[g]))"
+                f"   and not ANCREL(UP({_M}[g]), PJOIN(PJOIN({_D}, _dc1_0), 'shards_list.json'))), g='U')",
+                f"reveal R_FS,R_CERT: forall(lambda g: implies(g in {_M} and g != _dc1_0,"
                 f"   dstate(PJOIN(dataset_root, UP({_M}[g]))) == iter_start(dstate(PJOIN(dataset_root, UP({_M}[g]))))"
                 f"   and disk_read(PJOIN(dataset_root, UP({_M}[g]))) == iter_start(disk_read(PJOIN(dataset_root, UP({_M}[g]))))"
                 f"   and cert(dataset_root, UP({_M}[g])) == iter_start(cert(dataset_root, UP({_M}[g])))), g='U')",
-                f"cert(dataset_root, PJOIN(PJOIN({_D}, _dc1_directory), 'shards_list.json'))",
-                f"INFO_EXACT(dataset_root, galgs(), {_M}[_dc1_directory])",
+                f"cert(dataset_root, PJOIN(PJOIN({_D}, _dc1_0), 'shards_list.json'))",
+                f"INFO_EXACT(dataset_root, galgs(), {_M}[_dc1_0])",
                 # what lies outside D (and is not above it) lies outside D/g (and is not above it)
-                f"forall(lambda rel: implies(not UNDER({_D}, common, rel), not UNDER(PJOIN({_D}, _dc1_directory), common + 1, rel)), rel='U')",
+                f"forall(lambda rel: implies(not UNDER({_D}, common, rel), not UNDER(PJOIN({_D}, _dc1_0), common + 1, rel)), rel='U')",
                 # the first `common` components of D/g/shards_list.json and of D/shards_list.json are D
-                f"implies(axinst(path_inst(PJOIN({_D}, _dc1_directory), common, common - 1, 'shards_list.json')"
-                f"     and path_inst({_D}, common, common - 1, _dc1_directory) and path_inst({_D}, common, common - 1, 'shards_list.json')),"
-                f"  PPREFIX(PJOIN(PJOIN({_D}, _dc1_directory), 'shards_list.json'), common) == {_D} and PPREFIX({_P0}, common) == {_D})",
+                f"implies(axinst(path_inst(PJOIN({_D}, _dc1_0), common, common - 1, 'shards_list.json')"
+                f"     and path_inst({_D}, common, common - 1, _dc1_0) and path_inst({_D}, common, common - 1, 'shards_list.json')),"
+                f"  PPREFIX(PJOIN(PJOIN({_D}, _dc1_0), 'shards_list.json'), common) == {_D} and PPREFIX({_P0}, common) == {_D})",
                 # ... so their shorter prefixes coincide
                 f"forall(lambda rel: implies(NPARTS(rel) >= 1 and NPARTS(rel) <= common"
-                f"   and axinst(path_inst(PJOIN(PJOIN({_D}, _dc1_directory), 'shards_list.json'), common, NPARTS(rel) - 1) and path_inst({_P0}, common, NPARTS(rel) - 1)),"
-                f"   PPREFIX(PJOIN(PJOIN({_D}, _dc1_directory), 'shards_list.json'), NPARTS(rel) - 1) == PPREFIX({_P0}, NPARTS(rel) - 1)), rel='U')",
+                f"   and axinst(path_inst(PJOIN(PJOIN({_D}, _dc1_0), 'shards_list.json'), common, NPARTS(rel) - 1) and path_inst({_P0}, common, NPARTS(rel) - 1)),"
+                f"   PPREFIX(PJOIN(PJOIN({_D}, _dc1_0), 'shards_list.json'), NPARTS(rel) - 1) == PPREFIX({_P0}, NPARTS(rel) - 1)), rel='U')",
                 f"forall(lambda rel: implies(not UNDER({_D}, common, rel) and not ANCREL(rel, {_P0}),"
-                f"   not ANCREL(rel, PJOIN(PJOIN({_D}, _dc1_directory), 'shards_list.json'))), rel='U')",
+                f"   not ANCREL(rel, PJOIN(PJOIN({_D}, _dc1_0), 'shards_list.json'))), rel='U')",
             ],
             lemmas=[f"forall(lambda g, i: use_path(UP({_G}[g][i]), common), g='U')",
                     f"use_path(UP(updates[0]), common)",
